@@ -1,4 +1,5 @@
 import CheetahModel.Proofs.ElementMaps
+import CheetahModel.Proofs.DriftSymplectic
 /-!
 # C03 — maps conserve phase-space volume (symplectic; cavity damps by E_in/E_out)
 
@@ -90,6 +91,30 @@ leaves `det Σ₂` unchanged -/
 theorem emittance_plane_invariant (M S : Matrix (Fin 2) (Fin 2) ℝ) (h : M.det = 1) :
     (M * S * Mᵀ).det = S.det := by
   rw [Matrix.det_mul, Matrix.det_mul, Matrix.det_transpose, h]; ring
+
+/-! ### the non-linear Bmad-X drift
+
+In Bmad's coordinates `(x, px, y, py, z, pz)` all three pairs are canonical (`S₃ = blockdiag(J, J, J)`; the conversion to
+Cheetah's `(τ, δ)` flips the sign of the third pair, which is why `S₆` carries `−J` there). -/
+
+/-- every entry of the Jacobian of the Bmad-X drift kernel `track_a_drift`, at every transportable particle
+(`1 + pz > 0`, `px² + py² < (1+pz)²`), any length, any reference momentum: the partial derivative of output coordinate
+`i` with respect to input coordinate `j` is `jac i j` -/
+theorem bmadx_drift_jacobian (L : ℝ) (p : BP ℝ) (p0c m : ℝ) (hP : 0 < 1 + p.pz)
+    (hT : 0 < DriftSympl.sq p.px p.py p.pz) (hm : 0 < m) (i j : Fin 6) :
+    HasDerivAt (fun t => DriftSympl.coord (trackADrift L (DriftSympl.setCoord p j t) p0c m) i)
+      (DriftSympl.jac L p p0c m i j) (DriftSympl.coord p j) :=
+  DriftSympl.jacobian_entries L p p0c m hP hT hm i j
+
+/-- … and that Jacobian is symplectic: the non-linear Bmad-X drift conserves phase-space volume at every point, not
+only to first order about the design orbit -/
+theorem bmadx_drift_symplectic (L : ℝ) (p : BP ℝ) (p0c m : ℝ) :
+    (DriftSympl.jac L p p0c m).transpose * DriftSympl.S3 * DriftSympl.jac L p p0c m = DriftSympl.S3 :=
+  DriftSympl.jacobian_symplectic L p p0c m
+
+/-- non-vacuity: a particle 1 mrad / 2 mrad off axis with 3 % momentum deviation is transportable -/
+example : (0:ℝ) < 1 + 0.03 ∧ 0 < DriftSympl.sq 0.001 0.002 (0.03:ℝ) := by
+  unfold DriftSympl.sq; constructor <;> norm_num
 
 /-! non-vacuity: the hypotheses are satisfiable by concrete physical settings -/
 example : (0:ℝ) < 510998.95 ∧ (510998.95:ℝ) < 6e6 ∧ guardK1 4.2 + (0.0:ℝ) * 0.0 ≠ 0 := by
